@@ -212,11 +212,34 @@ def config_histories(args):
 
 def run(tier):
     run_ = common.Run(PID, tier, "exploration")
-    rt.prepare([FL])
+    rt.prepare([FL, "ndebug"])
     nh, steps = (512, 12) if tier == "quick" else (10000, 20)
     seeds = [run_.seed * 1000003 + i for i in range(nh)]
-    for acc in pool.pmap(do_histories, [(ch, steps) for ch in pool.chunks(seeds, max(1, nh // 32))]):
+    jobs = [(ch, steps) for ch in pool.chunks(seeds, max(1, nh // 32))]
+    # the same ledger on a -O2 -DNDEBUG build (what an assert() wrapped is not executed there)
+    nseeds = [run_.seed * 1000003 + 700000 + i for i in range(nh // 4)]
+    jobs += [(ch, steps, rt.PATHS["vw-ndebug"], "ndebug") for ch in pool.chunks(nseeds, max(1, nh // 64))]
+    for acc in pool.pmap(do_histories, jobs):
         run_.merge(acc)
+    # "a non-NULL result points inside that block", as the compiler of a CALLER is told by the generated <crypt.h>:
+    # an optimised consumer reaches the same bytes through the result and through *data (harness/vhdr.c)
+    import subprocess
+    hacc = common.Acc()
+    for lvl in ("-O1", "-O2", "-O3"):
+        hexe = rt.TREE.program("opt", "vhdr.c", name="vhdr-app" + lvl, wrap=False, extra_cflags=lvl, consumer=True)
+        hp = subprocess.run([hexe], stdout=subprocess.PIPE, stderr=subprocess.PIPE, text=True, timeout=300)
+        for ln in hp.stdout.splitlines():
+            if ln.startswith("VIOL ") and "_ra-" in ln:
+                t = ln.split(" ", 2)
+                hacc.violation("%s/%s" % (PID, t[1]), "a program compiled %s against the generated <crypt.h>: %s" % (lvl, t[2]),
+                               {"cmd": hexe})
+        if hp.returncode not in (0, 1):
+            hacc.violation(PID + "/header-consumer/died", "rc=%s %s" % (hp.returncode, hp.stderr[-300:]), {"cmd": hexe})
+        else:
+            hacc.count("evaluations", 10)
+            hacc.count("optimised_header_consumer_runs")
+            hacc.cls(("header-consumer", lvl))
+    run_.merge(hacc)
     nc = 24 if tier == "quick" else 400
     cjobs = []
     for ci, c in enumerate(CONFIGS):
@@ -232,6 +255,7 @@ def run(tier):
                 "step; distinct = (start class, grew?, outcome) cells" % steps,
         "histories": int(a.n.get("histories", 0)),
         "grow_events": int(a.n.get("grow_events", 0)),
+        "optimised_header_consumer_runs": int(a.n.get("optimised_header_consumer_runs", 0)),
         "gensalt_ra_calls": int(a.n.get("gensalt_ra_calls", 0)),
         "gensalt_ra_calls_per_configuration": {k[11:]: int(v) for k, v in a.n.items() if k.startswith("gensalt_ra/")},
         "other_configurations": [c[0] + "=" + ",".join(c[1]) for c in CONFIGS],
